@@ -64,6 +64,9 @@ func runHostWorld(c *Ctx, spec *HostSpec, sched *SchedConfig) ([]hostResult, *Re
 			if ee, ok := err.(*exec.ExitError); ok && ee.ExitCode() == 98 {
 				return nil, nil, nil // bubble deadlock: inconclusive
 			}
+			if crashLooks.MatchString(se.String()) {
+				return nil, nil, &hostCrashErr{fmt.Sprintf("%v: %s", err, clip(firstCrashLine(se.String()), 300))}
+			}
 			return nil, nil, infraf("preemptive host process failed: %v\n%s", err, clip(se.String(), 2000))
 		}
 	case <-time.After(90 * time.Second):
@@ -144,6 +147,10 @@ func c16HostPreempt(c *Ctx, pool *Pool, i int) error {
 	mode := []string{"random", "random", "mix", "lifo"}[r.Intn(4)]
 	sched := preemptSched(SubSeed(seed, "world", 0), every, mode)
 	res, rec, err := runHostWorld(c, spec, &sched)
+	if hc, ok := err.(*hostCrashErr); ok {
+		c.candidate16PreemptCrash(i, spec, &sched, hc)
+		return nil
+	}
 	if err != nil {
 		return err
 	}
@@ -170,6 +177,65 @@ func c16HostPreempt(c *Ctx, pool *Pool, i int) error {
 		}
 	}
 	return nil
+}
+
+// candidate16PreemptCrash: the host process of a preemptive world died on texts
+// the reference formatter handles. The world is deterministic (seeded
+// scheduler), so two repetitions confirm it; calls are dropped while it
+// still dies.
+func (c *Ctx) candidate16PreemptCrash(caseIdx int, spec *HostSpec, sched *SchedConfig, hc *hostCrashErr) {
+	c.mu.Lock()
+	c.candidates++
+	coarse := "C16|lib|host-crash"
+	if c.sigSeen["coarse:"+coarse] || c.processed >= 40 {
+		c.mu.Unlock()
+		return
+	}
+	c.sigSeen["coarse:"+coarse] = true
+	c.processed++
+	c.mu.Unlock()
+	candMu <- struct{}{}
+	defer func() { <-candMu }()
+	mk := func(cs []HostCall) *HostSpec {
+		return &HostSpec{Threads: spec.Threads, Calls: cs, Preempt: true, Procs: spec.Procs}
+	}
+	crashes := func(cs []HostCall) string {
+		if len(cs) == 0 {
+			return ""
+		}
+		_, _, err := runHostWorld(c, mk(cs), sched)
+		if e, ok := err.(*hostCrashErr); ok {
+			return e.msg
+		}
+		return ""
+	}
+	calls := append([]HostCall(nil), spec.Calls...)
+	if crashes(calls) == "" || crashes(calls) == "" {
+		c.ev.Count("unconfirmed_candidates", 1)
+		c.logf("preemptive host crash (world %d: %s) did not recur twice: not reported", caseIdx, hc.msg)
+		c.mu.Lock()
+		delete(c.sigSeen, "coarse:"+coarse)
+		c.mu.Unlock()
+		return
+	}
+	orig := len(calls)
+	for i := 0; i < len(calls) && len(calls) > 1; {
+		cand := append(append([]HostCall(nil), calls[:i]...), calls[i+1:]...)
+		if crashes(cand) != "" {
+			calls = cand
+		} else {
+			i++
+		}
+	}
+	msg := crashes(calls)
+	if msg == "" {
+		msg = hc.msg
+	}
+	rf := &ReplayFile{Property: "C16", Kind: "host-c16-preempt-crash", RunSeed: c.Seed, Case: caseIdx, Host: mk(calls), Sched: sched,
+		Expect:    map[string]any{"entry": "FormatPacketDslExport", "class": "host-crash"},
+		Original:  map[string]any{"calls": orig},
+		Minimised: map[string]any{"calls": len(calls)}}
+	c.report(coarse, fmt.Sprintf("the host process dies in a world of %d call(s) of FormatPacketDslExport on %d host threads, on texts the formatter handles (every returned string is freed exactly once, right after it was read): %s", len(calls), spec.Threads, msg), nil, rf)
 }
 
 // preemptFails runs the world and returns the first call whose result shows
